@@ -84,6 +84,10 @@ type Bank struct {
 	profID uint64
 }
 
+// SysArg + 3*k + e: C13's call with the k-th kind of non-struct argument through entry point e (systematic, like the
+// calls on rejected definitions: every kind x entry point is part of every run's bank).
+const SysArg = uint64(1) << 34
+
 // PanicBase + 3*k + e: a call (size / encode / decode) on the k-th definition whose own InitDefault panics.
 const PanicBase = uint64(1) << 36
 
@@ -249,7 +253,7 @@ func (b *Bank) Op(id uint64) (op OpSpec) {
 	op.Budget = budgets[r.Intn(len(budgets))]
 	op.Foreign = r.Chance(1, 3)
 	roll := r.Intn(100)
-	if id >= SysRejected && id < PanicBase && b.Prof != "C13" && len(b.rej) > 0 {
+	if id >= SysRejected && id < SysArg && b.Prof != "C13" && len(b.rej) > 0 {
 		// a call on a rejected definition, named by the id (C13 has its own, richer branch below)
 		k := int((id - SysRejected) % uint64(3*len(b.rej)))
 		op.Type, op.Kind = b.rej[k/3].Name, []string{"size", "enc", "dec"}[k%3]
@@ -420,6 +424,17 @@ func (b *Bank) Op(id uint64) (op OpSpec) {
 			roll = 99
 		}
 		switch {
+		case id >= SysArg && id < PanicBase:
+			k := int(id - SysArg)
+			op.Kind, op.Arg = "arg", argKinds[(k/3)%len(argKinds)]
+			op.Legacy = []string{"size", "enc", "dec"}[k%3]
+			op.Type = b.pickValid(r).Name
+			if len(b.byst) > 0 && r.Chance(1, 2) {
+				op.Type = b.byst[r.Intn(len(b.byst))].Name
+			}
+			if op.Arg == "struct-value" {
+				op.Legacy = "dec"
+			}
 		case id >= SysRejected:
 			// systematic part of the bank: every rejected definition through every entry point. No fresh-process
 			// baseline is needed for these (the verdict is known by construction), so the quick tier's bank prefix
@@ -588,8 +603,11 @@ func Derive(prof string, c *model.Corpus, seed uint64, run int, bankLimit uint64
 		nops = 30 + r.Intn(60)
 		random := pickOp
 		pickOp = func() uint64 {
-			if r.Chance(2, 5) {
+			switch roll := r.Intn(20); {
+			case roll < 8:
 				return SysRejected + uint64(r.Intn(3*len(b.rej)))
+			case roll < 10:
+				return SysArg + uint64(r.Intn(3*len(argKinds)))
 			}
 			return random()
 		}
